@@ -28,6 +28,7 @@ RULE = (
 )
 RULE += " " + 'Added after the seeding rounds: the timing data reaches the engine from an SSC simfile, an SM simfile, an SM simfile spelling its stops FREEZES, an SM simfile with STOPS and a stale FREEZES key (before or after it), or an SSC chart beside decoy simfile values under several spellings of the version; numbers also in exponent / signed / bare-dot spelling; offset absent or empty; half-tick (off-grid) probes around every event, negative ones next to beat 0 included.'
 RULE += " " + "Round 6: stop / delay lengths down to a microsecond (six decimals), tempo changes that only show in the 4th..6th decimal; part 'unaligned-warp-times': one warp whose length is not a whole number of ticks under a constant tempo - every later beat is reached between L and R beats' worth of time earlier than without the warp (L the exact length, R the nearest whole number of ticks)."
+RULE += " " + 'Round 7: offsets with more than six decimals; after every engine another engine is built from other timing data before the first one is asked anything.'
 ASSUMPTIONS = [
     "exact rational model in vf/model_timing.py written from the documented semantics",
     "float comparison sound only inside the magnitude bound (times < 1e5 s)",
